@@ -68,7 +68,8 @@ def evaluate(ch, tests, jobs):
             return out
         if tests:
             out['tests'] = run_tests(wt)
-        env = dict(os.environ, PHYLIB_SRC=wt, VERIF_JOBS=str(jobs))
+        env = dict(os.environ, PHYLIB_SRC=wt, VERIF_JOBS=str(jobs),
+                   VERIF_REPLAY_DIR=os.path.join(d, 'replays'))   # concurrent runs must not share replay files
         for c in ch['checks']:
             t0 = time.time()
             p = subprocess.run(['timeout', '1500', os.path.join(VERIF, 'check'), c, '--tier', 'quick'],
